@@ -36,6 +36,21 @@ RULE = ("plan = fault point (before opening the file, mid-file, before/after han
         "non-trivial = the fault actually fired; distinct by plan")
 
 BOUND = 40           # seconds for a plan that normally takes 3-5 s
+# "within bounded time" is judged against wall-clock bounds, and a wall-clock bound means
+# nothing without the speed of the machine: every run first times one fault-free plan
+# (CAL_NOMINAL seconds on the machine the bounds were chosen on) and stretches the bounds by
+# the ratio when the machine is slower - never shrinks them, and by at most CAL_MAX.
+CAL_NOMINAL = 3.0
+CAL_MAX = 6.0
+SCALE = 1.0          # set by run() before the plan shards are forked
+
+
+def bound():
+    return int(BOUND * SCALE)
+
+
+def plan_timeout():
+    return int((BOUND * 2 + 20) * SCALE)
 HERE = os.path.dirname(os.path.abspath(__file__))
 
 
@@ -122,7 +137,7 @@ def run_plan(plan):
                                 env=dict(os.environ, PYTHONDONTWRITEBYTECODE='1',
                                          PYTHONPATH=os.path.dirname(os.path.dirname(HERE))))
         try:
-            proc.wait(timeout=BOUND * 2 + 20)
+            proc.wait(timeout=plan_timeout())
             hung = False
         except subprocess.TimeoutExpired:
             hung = True
@@ -217,7 +232,7 @@ def judge(rep, item, mo, control):
     rep.extra['slowest_plan_wall_s'] = max(rep.extra.get('slowest_plan_wall_s', 0), impl['wall'])
     rep.extra['slowest_raise_latency_s'] = max(rep.extra.get('slowest_raise_latency_s', 0),
                                                run1.get('latency', 0) if run1.get('fired') else 0)
-    rep.extra['bounds_s'] = {'raise_latency': BOUND, 'whole_plan': BOUND * 2 + 20}
+    rep.extra['bounds_s'] = {'raise_latency': bound(), 'whole_plan': plan_timeout()}
     name = f"{plan['kind']}@{plan['point']} file {plan['file']}/{plan['nfiles']} " \
            f"workers {plan['workers']} k={plan.get('k', 1)}" + \
            (f" hold={plan['hold']}s" if plan.get('hold') else '') + \
@@ -237,7 +252,7 @@ def judge(rep, item, mo, control):
 
     if 'run1' not in r:
         return fail("run() did not come back within %d s (stack dump in the replay file)"
-                    % (BOUND * 2))
+                    % plan_timeout())
     if plan['kind'] == 'inproc':
         rep.count('in_process_failures')
         lo, run2 = r.get('leftovers1'), r.get('run2')
@@ -260,7 +275,7 @@ def judge(rep, item, mo, control):
         if run1['outcome'] not in ('FileSearchException', 'UnicodeDecodeError'):
             return fail(f"run() {'returned partial results' if run1['outcome'] == 'returned' else 'raised ' + run1['outcome']} "
                         "instead of FileSearchException")
-        if run1['latency'] > BOUND:
+        if run1['latency'] > bound():
             return fail(f"run() took {run1['latency']} s to raise")
     else:
         if run1['outcome'] != 'returned' or (control and run1.get('n') != control['n']):
@@ -327,6 +342,11 @@ def run(tier, seed, replay_case=None):
         chosen = plans[:2] + must + rng.sample(rest, 28)
     else:
         chosen = plans * 1
+    global SCALE  # pylint: disable=global-statement
+    cal = run_plan(plans[0])
+    SCALE = CAL_MAX if cal['hung'] else min(CAL_MAX, max(1.0, cal['wall'] / CAL_NOMINAL))
+    rep.extra['calibration'] = {'plan': plans[0], 'wall_s': cal['wall'],
+                                'nominal_s': CAL_NOMINAL, 'bounds_stretched_by': round(SCALE, 2)}
     nsh = min(core.NCPU // 2, len(chosen))
     import concurrent.futures
     import multiprocessing
@@ -347,6 +367,7 @@ def run(tier, seed, replay_case=None):
     rep.assumptions = ["a dead worker breaks the pool; a broken pool terminates all workers; "
                        "executor shutdown reaps them (ProcessPoolExecutor behaviour, observed, "
                        "not modelled)", "detection latency is only bounded by a generous "
-                       "watchdog (%d s)" % BOUND,
+                       "watchdog (%d s on the reference machine, stretched by the measured speed "
+                       "of this one: %d s in this run)" % (BOUND, bound()),
                        "the info thread holds the store lock only briefly"]
     return rep.finish(aud, RULE)
